@@ -167,6 +167,10 @@ def gen(rng, tier):
             cs.append(mk(200, m, b"/", [], b"", ["method-" + kind]))
             cs.append(mk(200, b"GET", b"/p", [(m, b" ", b"v", b"")], b"R", ["name-" + kind]))
     cs.append(mk(8192, TCHARS, b"/", [(TCHARS, b"", FV, b"")], b"", ["all-tchars", "all-vchars"]))
+    # --- a byte >= 0x80 at every offset of a long value: rejected (never a panic in the error path, never accepted)
+    for off in list(range(60, 140)) + [255, 256, 1023, 1024]:
+        for hi in (b"\xe9", b"\xc3\xa9", b"\x80"):
+            cs.append(try_case(8192, b"GET / HTTP/1.1\r\nx-v: " + b"a" * off + hi + b"tail" * 30 + b"\r\n\r\nR", ["high-byte-in-long-value"]))
     # --- every byte value at start / middle / end of a value, and alone
     for c in range(256):
         ch = bytes([c])
